@@ -585,8 +585,15 @@ func finish(chk *Check, tier string, seed int, start time.Time, nspecs int, a *a
 		}
 		// re-execute to make sure the violation is reproducible before it is believed
 		if os.Getenv("VERIF_NO_RECHECK") == "" && v.Class != "crash" && v.Class != "data-race" { // (a race report of the free-running auxiliary pass is not deterministic)
-			if !reproduces(chk, tier, seed, v, 3) {
-				fmt.Fprintf(os.Stderr, "HARNESS-ERROR: violation %s class=%s did not reproduce identically; not reported\n", chk.ID, v.Class)
+			same, anyViol := reproduces(chk, tier, seed, v, 3)
+			switch {
+			case same == 3:
+			case anyViol > 0:
+				// the same scenario fails again, but not every time or not in the same way: the behaviour of the code under
+				// test is not deterministic (on a tree where the property holds no execution of the scenario fails at all)
+				v.What += fmt.Sprintf(" [not deterministic: of 3 re-executions of this scenario %d failed, %d in the same way]", anyViol, same)
+			default:
+				fmt.Fprintf(os.Stderr, "HARNESS-ERROR: violation %s class=%s did not reproduce in any of 3 re-executions; not reported\n", chk.ID, v.Class)
 				return 2
 			}
 		}
@@ -646,7 +653,9 @@ func writeReplay(v Violation) string {
 }
 
 // reproduces re-executes the scenario n times in fresh subprocesses and requires the same class each time.
-func reproduces(chk *Check, tier string, seed int, v Violation, n int) bool {
+// reproduces re-executes the scenario n times in fresh processes: same = runs that failed with the same class,
+// anyViol = runs that failed at all.
+func reproduces(chk *Check, tier string, seed int, v Violation, n int) (same, anyViol int) {
 	tmp := filepath.Join(Scratch(), "recheck.json")
 	b, _ := json.Marshal(v)
 	os.WriteFile(tmp, b, 0o644)
@@ -654,12 +663,18 @@ func reproduces(chk *Check, tier string, seed int, v Violation, n int) bool {
 	for i := 0; i < n; i++ {
 		cmd := exec.Command(exe, chk.ID, "--tier", tier, "--seed", strconv.Itoa(seed), "--replay", tmp, "--quiet")
 		out, _ := cmd.CombinedOutput()
-		if !strings.Contains(string(out), "REPRODUCED class="+v.Class+"\n") {
+		switch {
+		case strings.Contains(string(out), "REPRODUCED class="+v.Class+"\n"):
+			same++
+			anyViol++
+		case strings.Contains(string(out), "REPRODUCED class="):
+			anyViol++
 			fmt.Fprintf(os.Stderr, "recheck %d output: %.2000s\n", i, out)
-			return false
+		default:
+			fmt.Fprintf(os.Stderr, "recheck %d output: %.2000s\n", i, out)
 		}
 	}
-	return true
+	return same, anyViol
 }
 
 // ReplayMain re-executes the scenario of a replay file without the enumerator.
